@@ -45,6 +45,10 @@ func Main(run *lib.Run, prop string) {
 				o.Padding, o.TableSizeChanges = false, false
 			}
 			sc := GenScript(r, o)
+			if i%12 == 7 {
+				sc.ViaMITM = true
+				sc.Features["via-mitm"] = true
+			}
 			run.Case(i, sc.Shape(), nil)
 			if i%40 == 0 {
 				var ss []string
@@ -84,6 +88,7 @@ func Main(run *lib.Run, prop string) {
 	wg.Wait()
 	run.Floor("scripts_completed", int64(n*8/10))
 	run.Floor("flow_controlled_octets", 1<<20)
+	run.Floor("scripts_with_via-mitm", int64(n/20))
 	run.Finish()
 }
 
